@@ -71,6 +71,9 @@ K_SVG_EXP00 = re.compile(rb'\bd\s*=\s*["\'][^"\']*[eE][+-]?\d*00(?!\d)')
 K_OPTCHAIN_TAG = re.compile(rb'\?\.[^()`;]*\)+\s*`')
 # K15: export default (function(){}()) loses its parentheses: export default function(){}() (SyntaxError)
 K_EXPORT_DEFAULT_FN = re.compile(rb'export\s+default\s*\(+\s*(?:async\s+)?(?:function|class)\b')
+# K16: a string-key index on an integer literal is rewritten to a dot without the second dot: 1['s'] -> 1.s, (0x10)['s'] -> 16.s
+_INT = rb'(?:0[xXbBoO][\da-fA-F]+|\d+)'
+K_INT_INDEX = re.compile(rb'(?<![\w.$\])])(?:\(\s*)+' + _INT + rb'(?:\s*\))+\s*\[\s*["\'][A-Za-z_$]|(?<![\w.$(])' + _INT + rb'\s*\[\s*["\'][A-Za-z_$]')
 # K10: a processing instruction whose content contains ">" before its "?>" is cut at that ">" by the XML/SVG minifiers
 K_PI_GT = re.compile(rb'<\?(?:(?!\?>)[^>])*(?<!\?)>', re.S)
 
@@ -135,6 +138,8 @@ def excluded(lang, opts, b):
         tags.append('K14')
     if lang in ('js', 'html') and K_EXPORT_DEFAULT_FN.search(b):
         tags.append('K15')
+    if lang in ('js', 'html') and K_INT_INDEX.search(b):
+        tags.append('K16')
     if lang == 'html' and K_SCRIPT_TYPE_CASE.search(b):
         tags.append('K11')
     if lang in ('js', 'html') and ('names' in opts or 'keep' in opts) and same_name_var_and_let(b):
